@@ -544,18 +544,35 @@ def _body_schema(draw, g: Gate, names: list[str]) -> dict:
         return {"type": draw(st.sampled_from(["string", "integer", "boolean"]))}
     if kind == "map":
         return {"type": "object", "additionalProperties": {"type": "string"}}
-    props = {pn: _primitive(draw, g) for pn in draw(st.lists(st.sampled_from(PROP_NAMES), min_size=1, max_size=3, unique=True))}
+    props = _gate_colliding_promotable(g, {pn: _primitive(draw, g) for pn in draw(st.lists(st.sampled_from(PROP_NAMES), min_size=1, max_size=3, unique=True))})
     return {"type": "object", "properties": props, "required": [next(iter(props))]}
 
 
-def _formatted_primitive(schema: dict, schemas: dict) -> bool:
-    """Resolves (through aliases, one array level) to a string with a format / an enum-free formatted scalar."""
+def _gate_colliding_promotable(g: Gate, props: dict) -> dict:
+    """Inline objects of bodies / responses: two keys deriving to one identifier where one needs a synthesised type (inline enum) are
+    the trigger of C03-F03; with that finding open the later key is dropped (counted)."""
+    out: dict = {}
+    for k, v in props.items():
+        clash = [q for q in out if _py(q) == _py(k)]
+        if clash and (_promotable(v) or any(_promotable(out[q]) for q in clash)):
+            if "colliding_props_promotable" in g.exclude:
+                g.excluded["colliding_props_promotable"] += 1
+                continue
+            g.used["colliding_props_promotable"] += 1
+        out[k] = v
+    return out
+
+
+def _formatted_primitive(schema: dict, schemas: dict, _depth: int = 0) -> bool:
+    """Resolves (through aliases and array levels) to a string with a format / an enum-free formatted scalar."""
     n = schema
     for _ in range(6):
         if isinstance(n, dict) and "$ref" in n:
             n = schemas.get(n["$ref"].rsplit("/", 1)[1], {})
     if isinstance(n, dict) and n.get("type") == "array":
-        return _formatted_primitive(n.get("items", {}), schemas)
+        if _depth > 8:  # array aliases may refer to themselves (cyclic documents are in C09's domain)
+            return False
+        return _formatted_primitive(n.get("items", {}), schemas, _depth + 1)
     return isinstance(n, dict) and n.get("type") == "string" and n.get("format") in ("uuid", "date", "date-time", "byte", "binary")
 
 
@@ -633,7 +650,7 @@ def _resp_schema(draw, g: Gate, names: list[str]) -> dict:
         return {"oneOf": [_ref(v) for v in vs]}
     if kind == "any":
         return {}
-    props = {pn: _primitive(draw, g) for pn in draw(st.lists(st.sampled_from(PROP_NAMES), min_size=1, max_size=3, unique=True))}
+    props = _gate_colliding_promotable(g, {pn: _primitive(draw, g) for pn in draw(st.lists(st.sampled_from(PROP_NAMES), min_size=1, max_size=3, unique=True))})
     obj = {"type": "object", "properties": props, "required": [next(iter(props))]}
     if kind == "array_inline":
         return {"type": "array", "items": obj}
@@ -778,6 +795,9 @@ def _operation(draw, g: Gate, names: list[str], path: str, path_vars: list[str],
     responses: dict[str, Any] = {}
     primary = g.pick(draw, [(None, "200"), (None, "200"), (None, "201"), (None, "204"), ("status_202", "202"), ("status_206", "206"),
                             ("no_2xx", None)], fallback="200")
+    if primary is None and g.flag(draw, "success_documented_under_default", 1, 3):
+        # no numeric 2xx: the success response (possibly a stream) is documented under `default` only
+        responses["default"] = _response(draw, g, names, "default", True, schemas_ctx)
     if primary:
         responses[primary] = _response(draw, g, names, primary, True, schemas_ctx)
         if g.flag(draw, "multi_2xx", 1, 6):
@@ -797,8 +817,8 @@ def _operation(draw, g: Gate, names: list[str], path: str, path_vars: list[str],
     if not responses:
         responses["default"] = {"description": "Default"}
     if not any(str(c).startswith("2") for c in responses):
-        for r in responses.values():
-            if _is_streaming(r, schemas_ctx):
+        for code_, r in responses.items():
+            if code_ != "default" and _is_streaming(r, schemas_ctx):
                 # no 2xx and a binary/stream payload on an error response: the error response becomes "primary", the method is
                 # annotated AsyncIterator but its body only raises (C13-F01)
                 if "no_2xx_streaming_error_payload" in g.exclude:
@@ -917,6 +937,20 @@ def specs(draw, gate: Gate | None = None, max_schemas: int = 5, max_ops: int = 4
         spec["info"]["description"] = "An API.\nSecond line."
     if schemas or draw(st.booleans()):
         spec["components"] = {"schemas": schemas}
+    distinct_paths = {p_ for p_, _m, _o in all_ops}
+    if len(distinct_paths) >= 2 and g.flag(draw, "shared_component_parameter", 1, 5):
+        # one parameter declared once under components.parameters and referenced from operations under several paths; its schema is an
+        # array of an inline enum (the item enum is promoted to a model named after ... some operation)
+        shared = {"name": "state-filter", "in": "query", "required": False,
+                  "schema": draw(st.sampled_from([{"type": "array", "items": {"type": "string", "enum": ["open", "closed", "on-hold"]}},
+                                                  {"type": "string", "enum": ["asc", "desc"]}, {"type": "integer"}]))}
+        spec.setdefault("components", {})["parameters"] = {"StateFilter": shared}
+        users = [o for _p, _m, o in all_ops if not any(isinstance(q, dict) and q.get("name") == "state-filter" for q in o.get("parameters", []))]
+        multi = [o for o in users if len(((o.get("requestBody") or {}).get("content") or {})) > 1]
+        for o in users:
+            if o in multi and "multi_content_with_params" in g.exclude:
+                continue  # C04-F01: multi-content operations drop query parameters
+            o.setdefault("parameters", []).append({"$ref": "#/components/parameters/StateFilter"})
     if g.flag(draw, "servers", 1, 4):
         spec["servers"] = [{"url": "https://api.example.com/v1"}]
     return spec
